@@ -556,8 +556,41 @@ pub fn history(weights: [u32; 5], max_steps: usize, event_rate: u32) -> impl Str
         proptest::collection::vec(dev_event(), 0..=(event_rate as usize)),
         any::<bool>(),
         prop_oneof![6 => Just(None), 1 => fail_spec().prop_map(Some)],
-        proptest::collection::vec((unit(weights), any::<u8>()), 1..5),
+        prop_oneof![19 => proptest::collection::vec((unit(weights), any::<u8>()), 1..5), 1 => proptest::collection::vec((unit(weights), any::<u8>()), 8..24)],
     )
         .prop_map(|(events, mav, tst, units)| Step { events, mav, tst, units });
     (any::<bool>(), proptest::collection::vec(step, 1..=max_steps)).prop_map(|(bounded, steps)| History { bounded, steps })
+}
+
+
+/// Histories that build a long error/event queue (more than 255 unread items,
+/// up to ~600) on the unbounded queue, with counts, status-byte reads and
+/// drains at and around the 256 / 512 marks.
+pub fn long_queue_history() -> impl Strategy<Value = History> {
+    let filler = prop_oneof![
+        4 => fail_spec().prop_map(U::Fail),
+        2 => Just(U::Opc),
+        2 => prop_oneof![Just(Bad::UndefinedHeader), Just(Bad::Missing), Just(Bad::OutOfRange), Just(Bad::Garbage)].prop_map(U::Bad),
+    ];
+    (
+        prop_oneof![3 => 250usize..262, 2 => 505usize..520, 1 => 262usize..505],
+        proptest::collection::vec((filler, any::<u8>(), 0u8..40), 520),
+        proptest::collection::vec(prop_oneof![Just(U::ErrCount), Just(U::StbQ), Just(U::ErrNext), Just(U::ErrAll), Just(U::EsrQ), Just(U::SreQ)], 3..12),
+        any::<u8>(),
+    )
+        .prop_map(|(n, fillers, tail, sre)| {
+            let mut steps: Vec<Step> = vec![Step { events: vec![], mav: false, tst: None, units: vec![(U::Sre((sre | 4) as i32), 0), (U::Ese(255), 0)] }];
+            for (i, (u, style, probe)) in fillers.into_iter().take(n).enumerate() {
+                steps.push(Step { events: vec![], mav: false, tst: None, units: vec![(u, style)] });
+                // look at the count / status byte now and then, and always around the 256 and 512 marks
+                let near = (250..262).contains(&i) || (505..520).contains(&i);
+                if probe == 0 || near {
+                    steps.push(Step { events: vec![], mav: probe & 1 == 1, tst: None, units: vec![(U::ErrCount, style), (U::StbQ, style)] });
+                }
+            }
+            for u in tail {
+                steps.push(Step { events: vec![], mav: false, tst: None, units: vec![(u, 0)] });
+            }
+            History { bounded: false, steps }
+        })
 }
